@@ -126,6 +126,21 @@ func clone[T any](vs []T) []T {
 	return out
 }
 
+type enumJ int
+
+func (e enumJ) MarshalJSON() ([]byte, error) { return []byte(fmt.Sprintf(`"state-%d"`, int(e))), nil }
+
+type maskT string
+
+func (m maskT) MarshalText() ([]byte, error) { return []byte("****"), nil }
+
+type (
+	plainU uint16
+	plainS string
+	plainF float32
+	plainB bool
+)
+
 type strer struct{ s string }
 
 func (s strer) String() string { return s.s }
@@ -431,6 +446,49 @@ func rows() []row {
 			time.Local = time.FixedZone("moved", (g.R.Intn(23)-11)*3600+1800)
 			return built{f: f, again: func() zapcore.Field { return f }, want: call("time", key, t), desc: "Time(local zone, time.Local reassigned)",
 				restore: func() { time.Local = old }}
+		}},
+		{"Dict(caller-owned slice with no-op members)", func(g *gen.G, key string) built {
+			// the slice handed to Dict / Any([]Field) stays the caller's: no-op members (Skip, a nil error)
+			// add nothing to the object and the slice is the same afterwards
+			fs := []zapcore.Field{zap.String("a", g.Str()), zap.Skip(), zap.Int("b", int(g.Int64(16))), zap.Error(nil), zap.Bool("c", true), zap.NamedError("none", nil), zap.Int("d", 4)}
+			fs = fs[g.R.Intn(3):]
+			keep := clone(fs)
+			var sub []rec.Call
+			for _, f := range keep {
+				s := &rec.Spy{}
+				f.AddTo(s)
+				sub = append(sub, s.Calls...)
+			}
+			f := zap.Dict(key, fs...)
+			a := zap.Any(key, fs)
+			return built{f: f, again: func() zapcore.Field { return zap.Dict(key, clone(keep)...) }, want: []rec.Call{{Kind: "object", Key: key, Sub: sub}}, anyF: &a, desc: "Dict(slice with no-op members)",
+				after: func() string {
+					for i := range keep {
+						if !keep[i].Equals(fs[i]) {
+							return fmt.Sprintf("Dict/Any changed element %d of the caller's field slice", i)
+						}
+					}
+					return ""
+				}}
+		}},
+		{"Any(named scalar types, with and without marshaling methods)", func(g *gen.G, key string) built {
+			// a type Any has no case for is handed over as it is (Reflect), methods and all
+			var v interface{}
+			switch g.R.Intn(6) {
+			case 0:
+				v = enumJ(g.R.Intn(5))
+			case 1:
+				v = maskT(g.Str())
+			case 2:
+				v = plainU(g.R.Intn(60000))
+			case 3:
+				v = plainS(g.Str())
+			case 4:
+				v = plainF(1.5)
+			default:
+				v = plainB(true)
+			}
+			return built{f: zap.Any(key, v), again: func() zapcore.Field { return zap.Reflect(key, v) }, want: call("reflected", key, v), desc: fmt.Sprintf("Any(%T)", v)}
 		}},
 		{"Stringers(nil pointers among the elements)", func(g *gen.G, key string) built {
 			// value-receiver String on pointer elements: a nil pointer renders as "<nil>" like
